@@ -15,6 +15,9 @@ METHOD_NAMES = Registry.NAMES + ["nope", "fault", "system.listMethods", "_privat
 
 values = gen.json_values(6)
 
+# numbers at the limits of what the parser builds: an integer far beyond any float, a float at the edge
+HUGE = [10 ** 400, -(10 ** 400), 10 ** 308, 1.7976931348623157e308, 2 ** 64, 5e-324]
+
 ids = st.one_of(
     st.just(None), st.just(""), st.just(0), st.integers(-5, 5), st.just(1.5),
     st.just(-0.0), st.just(0.0), st.text(gen.TEXT_ALPHABET, max_size=3),
@@ -23,15 +26,16 @@ ids = st.one_of(
     st.dictionaries(st.text(max_size=1), st.integers(0, 1), max_size=1),
     st.integers(-2 ** 53, 2 ** 53), st.floats(allow_nan=False, allow_infinity=False),
     st.sampled_from(["\ud83d", "x\udc00"]),
+    st.sampled_from(HUGE),
 )
 
-versions = st.sampled_from(["2.0", "2.0", "2.0", 2, 2.0, None, "1.0", "", "abc", [], True])
+versions = st.sampled_from(["2.0", "2.0", "2.0", 2, 2.0, None, "1.0", "", "abc", [], True, 0, False, {}, "2", 10 ** 400, 1e308, "1e999"])
 
 # keyword names that collide with parameter names commonly used inside call paths
 TRICKY_KEYS = ["self", "func", "method", "params", "args", "kwargs", "config", "cls", "name", "request"]
 # strings holding unpaired surrogates: a valid (ASCII) JSON text can spell them with \\uXXXX escapes
 SURROGATE_TEXT = ["\ud83d", "a\udfffb", "\ud800\ud800"]
-values = st.one_of(values, values, values, values, st.sampled_from(SURROGATE_TEXT))
+values = st.one_of(values, values, values, values, st.sampled_from(SURROGATE_TEXT), st.sampled_from(HUGE))
 
 # values shaped like the protocol's own messages (in-band look-alikes): a callable may
 # legitimately return a stored reply, a request to forward, an error description
